@@ -401,6 +401,32 @@ class IsolationCase:
                     if t is not None:
                         w.dst.cancel(t.source_id.value, t.seq_num.value); r._note_done(w.dst); r._drain(w.dst)
                     r.run()
+                elif kind == "reset_queued":
+                    # the user resets both handlers in the middle of the transaction while PDUs they produced are still
+                    # unretrieved (the receiver has just been handed what the link holds, the sender has just been called)
+                    for _ in range(rng.choice([0, 1, 2])):
+                        r.step_round()
+                    stop = False
+                    for _ in range(12):
+                        w.src.sm(None)
+                        r._drain(w.src)
+                        pend = list(w.link_s2d)
+                        w.link_s2d.clear()
+                        for raw in pend:
+                            w.dst.sm(codec.parse(raw))          # Side.sm records an exception, it does not raise
+                            if w.dst.h.packets_ready and rng.random() < 0.7:
+                                stop = True                     # an ACK / NAK / Finished PDU is waiting to be retrieved
+                                break
+                            r._drain(w.dst)
+                        if stop or w.src.h.state.value == 0:
+                            break
+                        pend = list(w.link_d2s)
+                        w.link_d2s.clear()
+                        for raw in pend:
+                            w.src.sm(codec.parse(raw))
+                        if w.src.h.packets_ready and rng.random() < 0.3:
+                            break
+                    w.src.reset(); w.dst.reset()
                 elif kind == "abandoned":
                     # peer silent: limits run out, both sides abandon / cancel
                     r.step_round(); r.step_round(); r.step_round()
@@ -468,7 +494,7 @@ def _short(x):
 
 
 def c11_cases(tier, rng):
-    kinds = ["completed", "lossy", "cancel_src", "cancel_dst", "abandoned"]
+    kinds = ["completed", "lossy", "cancel_src", "cancel_dst", "abandoned", "reset_queued"]
     n = 80 if tier == "quick" else 5000
     for i in range(n):
         mode = rng.choice([0, 0, 1])
